@@ -131,6 +131,7 @@ def connOk : Conn → Conn → Bool
 /-- allowed single transitions of the communication machine, given the endpoint's session state at that moment -/
 def commOk (c : Conn) : Comm → Comm → Bool
   | .dis, .notc => true
+  | .dis, .dis => false
   | _, .dis => true
   | .notc, .wcra => c ≠ .nc          -- only the `communicating` event (session SELECTED) starts an attempt; the observer may see
                                      -- the session already left SELECTED again (another thread), never NOT CONNECTED→attempt
